@@ -1488,6 +1488,95 @@ theorem insertLexicon_frame2 (db db' : Db) (l : Lexicon) (lexid extid : Nat)
       subst h1
       exact ⟨rfl, rfl, rfl⟩
 
+/-- the `synsets` and `ilis` tables after one whole `addLexicon`: the old rows first, unchanged, then
+the rows of the new lexicon / the ILIs it presupposes -/
+theorem addLexicon_synset_tables (norm : String → String) (dr : Nat) (db db' : Db) (l : Lexicon)
+    (h : addLexicon norm dr db l = .ok db') :
+    ∃ (rows : List RSynset) (extra : List RIli), db'.synsets = db.synsets ++ rows ∧
+      (∀ r ∈ rows, r.lex = nextId (db.lexicons.map (·.rowid))) ∧ db'.ilis = db.ilis ++ extra := by
+  unfold addLexicon at h
+  simp only [bind, Except.bind] at h
+  cases h0 : collectFrames l with
+  | error x => rw [h0] at h; simp at h
+  | ok sbs =>
+    rw [h0] at h
+    simp only at h
+    cases h1 : insertLexicon (updateLookups db l) l with
+    | error x => rw [h1] at h; simp at h
+    | ok t =>
+      obtain ⟨d1, lexid, extid⟩ := t
+      rw [h1] at h
+      simp only at h
+      obtain ⟨_, _, f3, _⟩ := insertLexicon_frame _ _ _ _ _ h1
+      have f3' : lexid = nextId (db.lexicons.map (·.rowid)) := f3
+      generalize hc : ({ lexid := lexid, extid := extid, extIds := externalIds l } : Ctx) = c at h
+      have hlex : c.lexid = lexid := by rw [← hc]
+      cases h2 : insertSynsets d1 l c with
+      | error x => rw [h2] at h; simp at h
+      | ok d2 =>
+        rw [h2] at h
+        simp only at h
+        have hrest : KeepsYF (fun b => (do
+            let db ← insertEntries b l c
+            let db ← insertForms db norm l c
+            let db ← insertPronsTags db l c
+            let db ← insertSenses db l c dr
+            let db ← insertSbs db sbs c
+            let db ← insertRelations db l c
+            insertDefsExamples db l c)) :=
+          keepsYF_bind _ _ (keepsYF_insertEntries l c) (keepsYF_bind _ _ (keepsYF_insertForms norm l c)
+            (keepsYF_bind _ _ (keepsYF_insertPronsTags l c) (keepsYF_bind _ _ (keepsYF_insertSenses l c dr)
+              (keepsYF_bind _ _ (keepsYF_insertSbs sbs c) (keepsYF_bind _ _ (keepsYF_insertRelations l c)
+                (keepsYF_insertDefsExamples l c))))))
+        have hk := hrest d2 db' h
+        -- inside `_insert_synsets`
+        have hd1 : d1.synsets = db.synsets ∧ d1.ilis = db.ilis := by
+          obtain ⟨_, g2, _⟩ := insertLexicon_frame2 _ _ _ _ _ h1
+          refine ⟨g2, ?_⟩
+          unfold insertLexicon at h1
+          simp only [bind, Except.bind, pure, Except.pure] at h1
+          split at h1
+          · simp [throw, throwThe, MonadExcept.throw] at h1
+          · split at h1
+            · split at h1
+              · simp at h1
+              · simp only [Except.ok.injEq, Prod.mk.injEq] at h1
+                obtain ⟨e1, _, _⟩ := h1
+                subst e1; rfl
+            · simp only [Except.ok.injEq, Prod.mk.injEq] at h1
+              obtain ⟨e1, _, _⟩ := h1
+              subst e1; rfl
+        unfold insertSynsets at h2
+        cases hp : need "ili status" (lookupId d1.ilistatuses "presupposed") with
+        | error e => simp [hp, bind, Except.bind] at h2
+        | ok presup =>
+          simp only [hp, bind, Except.bind] at h2
+          cases h21 : (localSynsets l).foldlM (presupStep presup) d1 with
+          | error e => simp [h21] at h2
+          | ok x1 =>
+            simp only [h21] at h2
+            cases h22 : (localSynsets l).foldlM (synsetStep c) x1 with
+            | error e => simp [h22] at h2
+            | ok x2 =>
+              simp only [h22] at h2
+              obtain ⟨hsyn, hili⟩ := pili_fold_frame c _ x2 d2 h2
+              obtain ⟨rows, hx2, hrows⟩ := C01_synset_rows c _ x1 x2 h22
+              obtain ⟨⟨extra, hex⟩, _⟩ := C01_presupposed_ilis presup _ d1 x1 h21
+              refine ⟨rows, extra, ?_, ?_, ?_⟩
+              · rw [hk.1, hsyn, hx2, hex]; simp [hd1.1]
+              · intro r hr
+                have key : ∀ {L : List Synset} {R : List RSynset}, Forall2 (SynsetRowOf c x1.ilis) L R → ∀ r ∈ R, r.lex = c.lexid := by
+                  intro L R hh
+                  induction hh with
+                  | nil => intro r hr; simp at hr
+                  | cons hd _ ih =>
+                    intro r hr
+                    rcases List.mem_cons.mp hr with rfl | hr
+                    · exact hd.2.1
+                    · exact ih r hr
+                rw [key hrows r hr, hlex, f3']
+              · rw [hk.2, hili, hx2, hex]; simp [hd1.2]
+
 theorem insertSynsets_nodupY (db db' : Db) (l : Lexicon) (c : Ctx) (h : insertSynsets db l c = .ok db')
     (hn : (db.synsets.map (·.rowid)).Nodup) : (db'.synsets.map (·.rowid)).Nodup := by
   unfold insertSynsets at h
